@@ -238,7 +238,7 @@ def zero_cases(rng):
 def generate(ctx):
     rng = ctx.rng
     thorough = ctx.thorough or getattr(ctx, "tier_search", "quick") == "thorough" or fingerprint_changed(ctx)
-    n_random = 40000 if thorough and ctx.thorough else (1500 if thorough else 250)
+    n_random = 8000 if thorough and ctx.thorough else (1500 if thorough else 250)
     cases = []
     for node in directed_cases(rng):
         cases.append(dict(stream="directed", top=node))
